@@ -77,6 +77,33 @@ Definition stable_b (hs : list string) (rs : list report) : bool :=
 Definition Stable (hs : list string) (rs : list report) : Prop :=
   forall r, In r rs -> hosts_step r = inl hs \/ exists e, hosts_step r = inr e.
 
+(* ---- a dynamic subscriber: the windows between changes of the list ----
+   a block is a maximal run of consecutive calls whose successful lookups all report the same
+   list (failed lookups in between do not end it); the selections made inside every block
+   must be fair over every window.  cur: the list of the running block; acc: its picks *)
+Definition close_b (cur : option (list string)) (acc : list string) : bool :=
+  match cur with
+  | Some hs => negb (nodup_str hs) || rr_seq_b hs acc
+  | None => true
+  end.
+
+Definition pick_of (o : res) : list string := match o with Ok h => [h] | _ => [] end.
+
+Fixpoint blocks_b (cur : option (list string)) (acc : list string) (steps : list (report * res)) : bool :=
+  match steps with
+  | [] => close_b cur acc
+  | (r, o) :: rest =>
+      match hosts_step r with
+      | inr _ => blocks_b cur acc rest
+      | inl l =>
+          match cur with
+          | Some hs => if list_eqb str_eqb l hs then blocks_b cur (acc ++ pick_of o) rest
+                       else close_b cur acc && blocks_b (Some l) (pick_of o) rest
+          | None => blocks_b (Some l) (pick_of o) rest
+          end
+      end
+  end.
+
 (* ---- random balancer: non-vanishing share ----
    observable form: over M selections every host got at least a quarter of the even share
    M/n (the harness draws M >= 64 n) *)
